@@ -152,6 +152,8 @@ const LAYOUTS: &[&[Lay]] = &[
   &[Lay::A, Lay::Rs, Lay::B],
   &[Lay::Rs],
   &[Lay::A, Lay::B, Lay::C, Lay::Rs],
+  &[Lay::Rs, Lay::A, Lay::B, Lay::C],
+  &[Lay::A, Lay::Rs, Lay::B, Lay::C],
 ];
 
 #[derive(Clone, Copy, Debug)]
@@ -204,7 +206,7 @@ pub fn allocation_product(thorough: bool) -> Scenario {
   // height 15: etch R0 and R1 (commit at 9 has 15-9+1 = 7 confirmations)
   let h = chain.height() + 1;
   let min = Rune::minimum_at_height(Network::Regtest, Height(h)).0;
-  let per_tx = if thorough { 45_000usize } else { 6_000 };
+  let per_tx = if thorough { 56_000usize } else { 8_000 };
   let e0 = etch_split(&chain, OutPoint { txid: commit_txid, vout: 0 }, chain.coinbase_outpoint(2), min + 10, 1000 * per_tx as u128, per_tx);
   let e1 = etch_split(&chain, OutPoint { txid: commit_txid, vout: 1 }, chain.coinbase_outpoint(3), min + 20, 501 * per_tx as u128, per_tx);
   let (e0id, e1id) = (e0.compute_txid(), e1.compute_txid());
@@ -371,13 +373,37 @@ pub fn allocation_product(thorough: bool) -> Scenario {
   }
 }
 
+/// stands for "the etch height" in the extra terms variants
+const HE_PLACEHOLDER: u128 = 0xE7C4_0000;
+
 pub fn mint_matrix(thorough: bool) -> Scenario {
   let mut chain = Chain::new();
   for _ in 0..8 {
     chain.push(vec![]);
   }
   // terms variants: every subset of the six fields; values chosen below relative to the etch height
-  let n_var = 64usize;
+  // plus variants with values at the ends of the integer range and on the etch height itself
+  let big = u128::from(u64::MAX);
+  let extras: Vec<Vec<(u128, u128)>> = vec![
+    vec![(T_CAP, 9), (T_AMOUNT, 5), (T_OSTART, big)],
+    vec![(T_CAP, 9), (T_AMOUNT, 5), (T_OEND, big)],
+    vec![(T_CAP, 9), (T_AMOUNT, 5), (T_HSTART, big)],
+    vec![(T_CAP, 9), (T_AMOUNT, 5), (T_HEND, big)],
+    vec![(T_CAP, 9), (T_AMOUNT, 5), (T_HSTART, 0), (T_OSTART, 0)],
+    vec![(T_CAP, 9), (T_AMOUNT, 5), (T_HEND, 0)],
+    vec![(T_CAP, 9), (T_AMOUNT, 5), (T_OEND, 0)],
+    vec![(T_CAP, 9), (T_AMOUNT, 5), (T_HSTART, big), (T_OSTART, 1)],
+    vec![(T_CAP, 9), (T_AMOUNT, 5), (T_HEND, big), (T_OEND, 2)],
+    vec![(T_CAP, 9), (T_AMOUNT, 5), (T_OSTART, big - 1), (T_OEND, big)],
+    vec![(T_CAP, u128::MAX), (T_AMOUNT, 1)],
+    vec![(T_CAP, 1), (T_AMOUNT, u128::MAX)],
+    vec![(T_CAP, 3), (T_AMOUNT, 0)],
+    vec![(T_CAP, 9), (T_AMOUNT, 5), (T_HSTART, HE_PLACEHOLDER)],
+    vec![(T_CAP, 9), (T_AMOUNT, 5), (T_HEND, HE_PLACEHOLDER)],
+    vec![(T_CAP, 9), (T_AMOUNT, 5), (T_HEND, HE_PLACEHOLDER + 1), (T_OEND, 1)],
+  ];
+  let n_subsets = 64usize;
+  let n_var = n_subsets + extras.len();
   let heights_after = if thorough { 6 } else { 5 };
   // height 9: commit outputs (p2tr) and funding slices
   let n_slices = n_var * (heights_after + 1) * 2 + 8;
@@ -398,6 +424,12 @@ pub fn mint_matrix(thorough: bool) -> Scenario {
   let mut etches = Vec::new();
   for v in 0..n_var {
     let mut fields = vec![(T_FLAGS, 3u128), (T_RUNE, min + 100 + v as u128)];
+    if v >= n_subsets {
+      for (t, x) in &extras[v - n_subsets] {
+        let x = if *x >= HE_PLACEHOLDER && *x < HE_PLACEHOLDER + 8 { u128::from(he) + (*x - HE_PLACEHOLDER) } else { *x };
+        fields.push((*t, x));
+      }
+    } else {
     if v & 1 != 0 {
       fields.push((T_CAP, 2));
     }
@@ -415,6 +447,7 @@ pub fn mint_matrix(thorough: bool) -> Scenario {
     }
     if v & 32 != 0 {
       fields.push((T_OEND, 3));
+    }
     }
     let msg = Msg { fields, edicts: vec![], raw_tail: vec![] };
     let name = min + 100 + v as u128;
@@ -475,9 +508,11 @@ pub fn mint_matrix(thorough: bool) -> Scenario {
     blocks: chain.blocks,
     decided_cases: decided,
     description: format!(
-      "mint matrix: {n_var} runes = every subset of {{cap 2, amount 5, height start e+2, height end e+4, offset start 1, offset end 3}} etched at height e={he}; \
+      "mint matrix: {n_var} runes = every subset of {{cap 2, amount 5, height start e+2, height end e+4, offset start 1, offset end 3}} plus {} variants with \
+       terms values 0, e, e+1 and u64::MAX / u128::MAX (window arithmetic at the ends of the integer range), etched at height e={he}; \
        a mint attempt for every rune before and after its etching inside block e and at each of the heights e+1..e+{heights_after} \
-       (cenotaph mints at e+2 for odd variants, two attempts per rune in block e+3): {decided} mint decisions"
+       (cenotaph mints at e+2 for odd variants, two attempts per rune in block e+3): {decided} mint decisions",
+      n_var - n_subsets
     ),
     samples: vec![format!("variant 63 = all six fields: mintable exactly at height {}", he + 2)],
   }
@@ -485,17 +520,27 @@ pub fn mint_matrix(thorough: bool) -> Scenario {
 
 /// Runs a scenario from genesis on a fresh index, auditing after every block from `audit_from`.
 pub fn run_scenario(s: &Scenario, cfg: &IndexCfg, audit_from: usize, tag: &str) -> Exec {
+  run_scenario_events(s, cfg, audit_from, tag, false)
+}
+
+/// With `events`, the emitted events are folded block by block and compared with the index (C37);
+/// `audit_from` must then be 0 so that every update() indexes exactly one block.
+pub fn run_scenario_events(s: &Scenario, cfg: &IndexCfg, audit_from: usize, tag: &str, events: bool) -> Exec {
   let mut e = Exec::default();
+  assert!(!events || audit_from == 0);
   let mut world = World::new(Network::Regtest);
   let scratch = Scratch::new(&format!("rbatch-{tag}"));
   let dir = scratch.sub("idx");
-  let index = match idx::open(&world, &dir, cfg) {
+  let (etx, mut erx) = tokio::sync::mpsc::channel(1 << 16);
+  let opened = if events { idx::open_with_events(&world, &dir, cfg, etx) } else { idx::open(&world, &dir, cfg) };
+  let index = match opened {
     Ok(i) => i,
     Err(err) => {
       e.fail("C16", "open/error", format!("Index::open failed: {err:#}"));
       return e;
     }
   };
+  let mut fold = super::events::EventFold::default();
   let mut runes = RuneModel::default();
   let mut sats = SatModel::default();
   runes.apply_block(&world.blocks[0], Network::Regtest, 0);
@@ -526,6 +571,15 @@ pub fn run_scenario(s: &Scenario, cfg: &IndexCfg, audit_from: usize, tag: &str) 
       Ok(None) => {}
       Err(p) => e.fail("C16", "query/panic", format!("an index query panicked during the audit: {p}")),
     }
+    if events {
+      let evs = super::events::drain(&mut erx);
+      fold.apply_block(&block, world.height(), evs);
+      let obs = idx::Dump::take(&index).ok().and_then(|d| super::inscriptions::observe(&index, &d).ok()).unwrap_or_default();
+      fold.compare(&index, &obs, &mut e);
+    }
+  }
+  if events {
+    *e.features.entry("events-folded").or_default() += fold.events;
   }
   for f in &feats {
     e.hit(f);
